@@ -95,11 +95,34 @@ func singleStore(a *ssa.Alloc) ssa.Value {
 	return nil
 }
 
+// descCache memoises descriptions that did not depend on the traversal
+// state (no depth cut-off, no cycle marker); nested phis otherwise make desc
+// exponential on large functions. Reset on every program load.
+var (
+	descCache = map[ssa.Value]string{}
+	descDirty bool
+)
+
 func descD(v ssa.Value, d int, seen map[ssa.Value]bool) string {
+	if s, ok := descCache[v]; ok {
+		return s
+	}
+	before := descDirty
+	descDirty = false
+	s := descD0(v, d, seen)
+	if !descDirty && v != nil {
+		descCache[v] = s
+	}
+	descDirty = descDirty || before
+	return s
+}
+
+func descD0(v ssa.Value, d int, seen map[ssa.Value]bool) string {
 	if v == nil {
 		return "<nil>"
 	}
 	if d <= 0 {
+		descDirty = true
 		return "…"
 	}
 	rec := func(x ssa.Value) string { return descD(x, d-1, seen) }
@@ -132,6 +155,9 @@ func descD(v ssa.Value, d int, seen map[ssa.Value]bool) string {
 			delete(seen, x)
 			return s
 		}
+		if seen[x] {
+			descDirty = true
+		}
 		return "new(" + typeStr(x.Type().(*types.Pointer).Elem()) + ")"
 	case *ssa.FieldAddr:
 		st := x.X.Type().Underlying().(*types.Pointer).Elem().Underlying().(*types.Struct)
@@ -148,6 +174,9 @@ func descD(v ssa.Value, d int, seen map[ssa.Value]bool) string {
 					s := rec(sv)
 					delete(seen, a)
 					return s
+				}
+				if seen[a] {
+					descDirty = true
 				}
 			}
 			return rec(x.X)
@@ -182,6 +211,7 @@ func descD(v ssa.Value, d int, seen map[ssa.Value]bool) string {
 		return rec(x.X)
 	case *ssa.Phi:
 		if seen[x] {
+			descDirty = true
 			return "phi↺"
 		}
 		seen[x] = true
